@@ -159,6 +159,13 @@ type world struct {
 	runs    []runRec
 	joinObs []string // audit failures noticed while the case runs
 	stuck   string
+
+	// reference of the value clause ("from termination on the process's own values are cleared"),
+	// kept from the script alone: own[p] = keys set on p and not removed, emptied when p is first
+	// seen terminated; Keys(p) must list own[q] for every q on p's parent chain and nothing else.
+	own      []map[int]bool
+	wasTerm  []bool
+	keysSaid bool
 }
 
 func newWorld() *world {
@@ -319,7 +326,17 @@ func (w *world) digest(res string) string {
 			ts = append(ts, "STUCK")
 		}
 	}
-	for _, p := range w.procs {
+	for len(w.own) < len(w.procs) {
+		w.own = append(w.own, map[int]bool{})
+		w.wasTerm = append(w.wasTerm, false)
+	}
+	for i, p := range w.procs {
+		if !w.wasTerm[i] && p.Status() == process.StatusTerminated {
+			w.wasTerm[i] = true
+			w.own[i] = map[int]bool{}
+		}
+	}
+	for i, p := range w.procs {
 		term, done := 0, 0
 		if p.Status() == process.StatusTerminated {
 			term = 1
@@ -334,6 +351,19 @@ func (w *world) digest(res string) string {
 			ks = append(ks, k.(int))
 		}
 		sort.Ints(ks)
+		var want []int
+		for q := i; q >= 0; q = w.parent[q] {
+			for k := range w.own[q] {
+				want = append(want, k)
+			}
+		}
+		sort.Ints(want)
+		if !w.keysSaid && fmt.Sprint(want) != fmt.Sprint(ks) {
+			w.keysSaid = true
+			w.mu.Lock()
+			w.joinObs = append(w.joinObs, fmt.Sprintf("values: Keys(p%d) lists %v; the values set and not removed on its chain, those of terminated processes cleared at termination, are %v (p%d terminated: %v)", i, ks, want, i, term == 1))
+			w.mu.Unlock()
+		}
 		var kss []string
 		for _, k := range ks {
 			kss = append(kss, strconv.Itoa(k))
@@ -373,13 +403,25 @@ func (w *world) exec(line string) (out string, ok bool) {
 			return bad()
 		}
 		w.procs[p].SetValue(k, v)
+		for len(w.own) < len(w.procs) {
+			w.own = append(w.own, map[int]bool{})
+			w.wasTerm = append(w.wasTerm, false)
+		}
+		w.own[p][k] = true
 		return w.digest("ok"), true
 	case len(f) == 3 && f[0] == "del":
 		p, k := num(f[1]), num(f[2])
 		if p < 0 || p >= len(w.procs) || k < 0 {
 			return bad()
 		}
-		return w.digest(showVal(w.procs[p].RemoveValue(k))), true
+		rv := w.procs[p].RemoveValue(k)
+		for q := p; q >= 0 && q < len(w.own); q = w.parent[q] {
+			if w.own[q][k] {
+				delete(w.own[q], k)
+				break
+			}
+		}
+		return w.digest(showVal(rv)), true
 	case len(f) == 3 && f[0] == "get":
 		p, k := num(f[1]), num(f[2])
 		if p < 0 || p >= len(w.procs) || k < 0 {
